@@ -123,7 +123,9 @@ def bounds(tier: str, params: Any) -> dict:
     if fam in ("incomplete", "headerlist"):
         return {"M": 0, "S": 1, "R": 0}
     if tier == "quick":
-        return {"M": 0 if fam == "recycle" else 1, "S": 2, "R": 0}
+        if fam == "recycle":
+            return {"M": 0, "S": 2 if params[4] < 3 else 1, "R": 0}
+        return {"M": 1, "S": 2, "R": 0}
     return {"M": 1, "S": 3, "R": 1 if params[0] == "trio" else 0}
 
 
